@@ -21,8 +21,9 @@
      pres (block_content * block_execute * lines_consumed).  The loop only needs
      `1 <= lines_consumed` of the first three (extractors_ok).
    NOT MODELLED: the text of diagnostics (a diag carries a site tag and the index handed to
-     format_error; for the `~` statement that is `i + (e.lineno - 1 if e.lineno else 0)`, the oracle
-     py_stmt_errline, not clamped to the statement: core.py does not clamp it either); BlockStack (core.py creates one and only calls check_empty on
+     format_error; for the `~` statement that is `i + min(max(py_offset, 0), lines_consumed - 1)` with
+     py_offset = `e.lineno - 1 if e.lineno else 0` = the oracle py_stmt_errline: clamped to the lines the
+     statement consumed since fix F14c); BlockStack (core.py creates one and only calls check_empty on
      it, nothing is ever pushed, so it is a no-op); the stderr warning of _determine_initial_passage;
      "version"; the bookkeeping keys `_join_count` / `current_section` that stay in the passage
      dict, `block_execute` of a @join choice and token-level "tags" (not in Story/Compiled.v).
@@ -441,8 +442,9 @@ Definition body_step (lines : list string) (i : nat) (line : string) (st : pstat
     if py_stmt_ok pp complete_code
     then next (with_execute cp (TPyStmt complete_code)) (i + consumed)
     else
-      (* error_line = i + (e.lineno - 1 if e.lineno else 0) *)
-      dsyn "stmt:python-syntax" (i + py_stmt_errline pp complete_code) else
+      (* py_offset = e.lineno - 1 if e.lineno else 0
+         error_line = i + min(max(py_offset, 0), lines_consumed - 1)        (fix F14c; consumed = lines_consumed) *)
+      dsyn "stmt:python-syntax" (i + Nat.min (py_stmt_errline pp complete_code) (consumed - 1)) else
   (* choice *)
   if startswith line "+ " || startswith line "* " then
     let sec := match pp_section cp with Some n => n | None => 0 end in
